@@ -202,11 +202,13 @@ pub struct Variant {
     pub cfgs: Vec<String>,
     pub docs: Vec<Doc>,
     pub style: AttrStyle,
+    /// further serde arguments, rendered before the others (so the interesting one is not the first)
+    pub extra_serde: Vec<String>,
 }
 
 impl Variant {
     pub fn new(ident: &str, kind: VKind) -> Variant {
-        Variant { ident: ident.to_string(), rename: None, rename_all: None, kind, skip: Skip::No, serialized_as: None, cfgs: vec![], docs: vec![], style: AttrStyle::Separate }
+        Variant { ident: ident.to_string(), rename: None, rename_all: None, kind, skip: Skip::No, serialized_as: None, cfgs: vec![], docs: vec![], style: AttrStyle::Separate, extra_serde: vec![] }
     }
 }
 
@@ -238,11 +240,13 @@ pub struct Item {
     pub style: AttrStyle,
     /// enclosing modules, outermost first
     pub mods: Vec<String>,
+    /// further serde arguments, rendered before the others
+    pub extra_serde: Vec<String>,
 }
 
 impl Item {
     pub fn new(name: &str, kind: IKind) -> Item {
-        Item { name: name.to_string(), annotated: true, rename: None, rename_all: None, generics: vec![], kind, ts_args: vec![], cfgs: vec![], docs: vec![], style: AttrStyle::Separate, mods: vec![] }
+        Item { name: name.to_string(), annotated: true, rename: None, rename_all: None, generics: vec![], kind, ts_args: vec![], cfgs: vec![], docs: vec![], style: AttrStyle::Separate, mods: vec![], extra_serde: vec![] }
     }
     pub fn strukt(name: &str, fields: Vec<Field>) -> Item {
         Item::new(name, IKind::Struct(fields))
@@ -386,7 +390,7 @@ fn render_field(f: &Field, indent: &str, public: bool, out: &mut String) {
 }
 
 pub fn render_item(it: &Item, indent: &str, out: &mut String) {
-    let mut s: Vec<String> = Vec::new();
+    let mut s: Vec<String> = it.extra_serde.clone();
     if let Some(r) = &it.rename {
         s.push(format!("rename = {}", rust_str(r)));
     }
@@ -441,7 +445,7 @@ pub fn render_item(it: &Item, indent: &str, out: &mut String) {
             let ind2 = format!("{indent}    ");
             let ind3 = format!("{indent}        ");
             for v in variants {
-                let mut vs = Vec::new();
+                let mut vs = v.extra_serde.clone();
                 let mut vt = Vec::new();
                 if let Some(r) = &v.rename {
                     vs.push(format!("rename = {}", rust_str(r)));
